@@ -141,10 +141,14 @@ def workload(case, seed, scheduler_ctx):
 
 
 @functools.lru_cache(maxsize=None)
-def eager_reference(model, seed):
+def eager_reference(model, seed, deferred=False):
+    """The same model on the same data held in memory. A deferred rotator runs a fixed number of iterations (no
+    convergence test is possible lazily), so its in-memory counterpart is the same fixed-iteration rotation on numpy
+    input (compute=False on in-memory data), not the eagerly converged one."""
+    fixed_iter = deferred and model in ("EOFRotator", "MCARotator")
     with warnings.catch_warnings():
         warnings.simplefilter("ignore")
-        res, _ = workload(dict(model=model, layout="numpy", compute=True, check_nans=True), seed, None)
+        res, _ = workload(dict(model=model, layout="numpy", compute=not fixed_iter, check_nans=True), seed, None)
     return res
 
 
@@ -199,7 +203,7 @@ def _cmp(a, b, tol):
 
 def _tol_vs_eager(model, deferred):
     if model in ("EOFRotator", "MCARotator"):
-        return 1e-5  # deferred rotation runs a fixed 16 iterations instead of stopping at rtol=1e-8
+        return 1e-7
     if model == "SparsePCA":
         return 1e-6
     return 1e-7
@@ -287,7 +291,7 @@ def run_case(case, seed):
 
     with warnings.catch_warnings():
         warnings.simplefilter("ignore")
-        ref = eager_reference(model, seed)
+        ref = eager_reference(model, seed, not case["compute"])
         if case["kind"] == "real":
             try:
                 with dask.config.set(scheduler=case["scheduler"], num_workers=case["workers"]):
